@@ -22,7 +22,7 @@ def main():
             rp = os.path.join(V, "seeded", d, "result.json")
             if d.startswith(pid) and os.path.exists(rp):
                 r = json.load(open(rp))
-                how = "bounded" if all("bounded" in v or "wrapper" in v or "hugr_" in v for v in r.get("violations", [])) else ("ground" if all(("ground" in v or "diff_" in v) for v in r.get("violations", [])) else "obligation" + ("+bounded" if any("bounded" in v for v in r.get("violations", [])) else ""))
+                how = "bounded" if all("bounded" in v or "wrapper" in v or "hugr_" in v for v in r.get("violations", [])) else ("ground" if all(any(k in v for k in ("ground", "diff_", "alias_", "decoder_vs_schema", "enum_positions", "unlisted_")) for v in r.get("violations", [])) else "obligation" + ("+bounded" if any("bounded" in v for v in r.get("violations", [])) else ""))
                 seeded.append(f"{d}: {'caught (' + how + ')' if r.get('detected') else 'MISSED'}")
         rows.append((pid, c["level_claimed"]["category"], len(cov.get("functions_under_contract", [])), cov.get("obligations", 0), cov.get("discharged", 0),
                      sum(b.get("evaluations", 0) for b in cov.get("bounded", [])), len(cov.get("ground_checks", [])), f"{nb}+{nk}", "; ".join(seeded) or "-"))
